@@ -50,6 +50,12 @@ pub struct Sc {
     pub newer_roots: Option<u64>,
     pub ts_pins_len: bool,
     pub snap_pins_len: bool,
+    /// does timestamp list a digest for snapshot / snapshot one for targets (length and digest
+    /// are independently optional; without a digest a padded file within its length is legitimate)
+    #[serde(default = "yes")]
+    pub ts_pins_hash: bool,
+    #[serde(default = "yes")]
+    pub snap_pins_hash: bool,
     pub top_delegates: Vec<String>,
     pub top_targets: usize,
     pub roles: Vec<RoleDef>,
@@ -66,6 +72,10 @@ pub struct Sc {
 
 fn one() -> u64 {
     1
+}
+
+fn yes() -> bool {
+    true
 }
 
 pub struct C09;
@@ -156,7 +166,7 @@ fn build(sc: &Sc) -> Built {
         &RoleKeys::one(&keys::ed(w, 4)),
     );
     let tgb = tg.bytes();
-    metas.push(("targets.json".into(), Meta::of(1, &tgb, sc.snap_pins_len, true)));
+    metas.push(("targets.json".into(), Meta::of(1, &tgb, sc.snap_pins_len, sc.snap_pins_hash)));
     for (name, b) in &role_bytes {
         // delegated roles: version (+ length); tough does not check their digests
         metas.push((format!("{name}.json"), Meta::of(1, b, sc.snap_pins_len, false)));
@@ -166,7 +176,7 @@ fn build(sc: &Sc) -> Built {
     }
     let sn = sign_threshold(snapshot_signed(1, FAR, &metas), &RoleKeys::one(&keys::ed(w, 3)));
     let snb = sn.bytes();
-    let ts = sign_threshold(timestamp_signed(1, FAR, &Meta::of(1, &snb, sc.ts_pins_len, true)), &RoleKeys::one(&keys::ed(w, 2)));
+    let ts = sign_threshold(timestamp_signed(1, FAR, &Meta::of(1, &snb, sc.ts_pins_len, sc.ts_pins_hash)), &RoleKeys::one(&keys::ed(w, 2)));
     let tsb = ts.bytes();
     let shipped = root_bytes(sc, 1);
     let mut root_size = shipped.len();
@@ -291,7 +301,7 @@ impl Check for C09 {
         "C09"
     }
     fn rule(&self) -> String {
-        "per-role limits from {0, size-1, exact size, default, huge}, max_root_updates from {0,1,3,10}, 0..12 newer valid roots or an endless root generator, timestamp/snapshot pinning lengths or not, delegation graphs (none, tree depth<=3, self-delegation, mutual delegation, 3-cycle, diamond, one delegated role with 10..50 targets i.e. larger than targets.json), and for any subset of file kinds a hostile stream (whitespace padding or endless data); non-trivial = a hostile stream was pulled, a limit below the file size applied, a delegation cycle was entered or a delegated role larger than targets.json was fetched; distinct = distinct canonical trace".into()
+        "per-role limits from {0, size-1, exact size, default, huge}, max_root_updates from {0,1,3,10}, 0..12 newer valid roots or an endless root generator, timestamp/snapshot pinning lengths and digests independently or not, delegation graphs (none, tree depth<=3, self-delegation, mutual delegation, 3-cycle, diamond, one delegated role with 10..50 targets i.e. larger than targets.json), and for any subset of file kinds a hostile stream (whitespace padding or endless data); non-trivial = a hostile stream was pulled, a limit below the file size applied, a delegation cycle was entered or a delegated role larger than targets.json was fetched; distinct = distinct canonical trace".into()
     }
     fn assumptions(&self) -> Vec<String> {
         vec![
@@ -351,6 +361,8 @@ impl Check for C09 {
             newer_roots,
             ts_pins_len: r.chance(1, 2),
             snap_pins_len: r.chance(2, 3),
+            ts_pins_hash: r.chance(1, 2),
+            snap_pins_hash: r.chance(1, 2),
             top_delegates: top,
             top_targets: r.usize_below(4),
             roles,
@@ -501,8 +513,8 @@ impl Check for C09 {
             request_bound + 5,
         );
         o.ev(format!(
-            "cfg consistent={} limits=({:?},{:?},{:?},{:?}) mru={} newer_roots={:?} pins=({},{}) top={:?}/{} roles={:?} hostile={:?} shipped={} prior={:?}",
-            sc.consistent, sc.lim_root, sc.lim_ts, sc.lim_snap, sc.lim_tg, sc.max_root_updates, sc.newer_roots, sc.ts_pins_len, sc.snap_pins_len,
+            "cfg consistent={} limits=({:?},{:?},{:?},{:?}) mru={} newer_roots={:?} pins=({},{}) pin_hashes=({},{}) top={:?}/{} roles={:?} hostile={:?} shipped={} prior={:?}",
+            sc.consistent, sc.lim_root, sc.lim_ts, sc.lim_snap, sc.lim_tg, sc.max_root_updates, sc.newer_roots, sc.ts_pins_len, sc.snap_pins_len, sc.ts_pins_hash, sc.snap_pins_hash,
             sc.top_delegates, sc.top_targets, sc.roles.iter().map(|r| (r.name.as_str(), r.delegates.clone(), r.n_targets)).collect::<Vec<_>>(), sc.hostile, sc.shipped, sc.prior
         ));
         let t2 = transport.clone();
